@@ -666,7 +666,9 @@ def meta(tier):
     return {
         'rule': 'one state = (proximal factory | Functional.proximal | derived functional | '
                 'wrapper | building block) x options x sigma kind x space; inside a state every '
-                'x in V^n is executed two ways (prox(x) and prox(y, out=y) on a copy y of x). '
+                'x in V^n (two cyclic patterns on the spaces above the BLAS threshold) is executed '
+                'two ways (prox(x) and prox(y, out=y) on a copy y of x), again after the data '
+                'element was doubled in place, and at the data element itself. '
                 'distinct = distinct (site, number of distinct sign patterns of prox(x)-x, '
                 'executed-line signature); the AST scan contributes one per aliased call site '
                 'found in odl/solvers',
